@@ -181,6 +181,9 @@ class Module:
         from . import alpha
         self.tree = alpha.normalise_shape(self.tree)
         self.alpha_renames = alpha.normalise(self.tree, name)
+        from . import refdist
+        self.stmts_before_unextraction = refdist.statements(self.tree)
+        self.alpha_unextracted = alpha.inline_new_helpers(self.tree, name)
         self.alpha_inlined = alpha.inline_new_temps(self.tree, name)
         self.alpha_reordered = alpha.restore_operand_order(self.tree, name)
         self.alpha_attr_renames = alpha.normalise_attrs(self.tree, name)
